@@ -171,6 +171,11 @@ JudgeEnc(e, i) ==
 \* ---- SQL ------------------------------------------------------------------------------------------
 StrClass(c, s) == IF \A i \in DOMAIN s : s[i] <= 127 /\ Rep(c, s[i]) THEN "ascii"
                   ELSE IF AllRep(c, s) THEN "representable" ELSE "unrepresentable"
+\* got is what the strict encoder makes of the code words w when they are read as an internal string
+DoubleEncoded(got, c, w) ==
+    /\ WellFormed("utf8mb4", w)
+    /\ AllRep(c, Dec("utf8mb4", w))
+    /\ got = ExpStrict(c, Dec("utf8mb4", w))
 \* how a wrong result looks (reported with the disagreement so that different failures stay apart)
 How(e, c, s) ==
     IF e.out # "rows" THEN "none"
@@ -178,6 +183,7 @@ How(e, c, s) ==
     ELSE IF e.raw = Utf8Str(s) THEN "unconverted"                         \* the input came back as it went in
     ELSE IF ~(Kind(c) = "table" /\ QMark \notin DOMAIN tab) /\ e.raw = ExpReplace(c, s) THEN "code-words-not-decoded"
     ELSE IF ~(Kind(c) = "table" /\ QMark \notin DOMAIN tab) /\ CutAfterQMark(e.raw, ExpReplace(c, s)) THEN "truncated"
+    ELSE IF ~(Kind(c) = "table" /\ QMark \notin DOMAIN tab) /\ DoubleEncoded(e.raw, c, ExpReplace(c, s)) THEN "double-encoded"
     ELSE "other"
 ColOK(e, c, s) ==
     IF e.ins = "err" THEN ~AllRep(c, s)                                      \* reported
